@@ -328,6 +328,52 @@ def _defaulting(ctx, m: core.Mod) -> None:
                "the year default precedes the day-of-year / day-of-week resolution, which precedes the month/day defaults", m.loc(cp))
 
 
+def _timestamp_fraction(ctx, m: core.Mod) -> None:
+    """X/x: the parsed timestamp goes to local_time(ts, 0, microseconds), which floors ts (C15 LOCALTIME); the
+    microseconds must therefore be the distance *above the floor*.  Digits taken from the decimal text of ts are the
+    distance from truncation toward zero - for a negative ts they have to be complemented."""
+    cp = m.func("Formatter._check_parsed")
+    calls = [c for c in core.calls(cp) if nun(c.func).split(".")[-1] == "local_time" and len(c.args) == 3]
+    if len(calls) != 1:
+        ctx.unverified("SCALE.timestamp", "_check_parsed/local_time", f"{len(calls)} local_time(ts, offset, microseconds) calls", m.loc(cp))
+        return
+    c = calls[0]
+    ts, us = nun(c.args[0]), c.args[2]
+    if not isinstance(us, ast.Name):
+        ctx.unverified("SCALE.timestamp", "_check_parsed/local_time", f"microseconds argument `{nun(us)}`", m.loc(c))
+        return
+    defs = core.assigns_to(cp, us.id)
+    texts = [nun(d) for d in defs]
+    from_digits = [t for t in texts if ".split('.')" in t]
+    floor_based = [t for t in texts if "math.floor" in t or "% 1" in t or "divmod(" in t]
+    if floor_based and not from_digits:
+        ctx.ob("SCALE.timestamp", "_check_parsed/fraction", True, f"fraction computed above the floor: {floor_based}", m.loc(c))
+        return
+    if not from_digits:
+        ctx.unverified("SCALE.timestamp", "_check_parsed/fraction", f"microseconds defined as {texts}", m.loc(c))
+        return
+    comp = None
+    for n in core.walk_fn(cp):
+        if isinstance(n, ast.Assign) and nun(n.targets[0]) == us.id and isinstance(n.value, ast.BinOp) and isinstance(n.value.op, ast.Sub) \
+                and nun(n.value.right) == us.id:
+            try:
+                if core.fold(n.value.left, m) == 10**6:
+                    comp = n
+            except Exception:
+                pass
+    guard_ok = False
+    if comp is not None and isinstance(comp._parent, ast.If):
+        _, sat = _truth(comp._parent.test)
+        atoms = _truth(comp._parent.test)[0]
+        neg = f"{ts} < 0"
+        guard_ok = neg in atoms and all(neg in s_ for s_ in sat) and all(a in (neg, us.id, f"{us.id} > 0", f"{us.id} != 0") for a in atoms)
+    ctx.ob("SCALE.timestamp", "_check_parsed/fraction", comp is not None and guard_ok,
+           f"microseconds come from the decimal digits of str({ts}) ({from_digits[0][:60]}); "
+           + (f"complemented under `{nun(comp._parent.test)}`" if comp is not None and guard_ok else
+              "local_time() floors a negative timestamp, so without `1000000 - microseconds` for ts < 0 an instant before 1970 with a "
+              "fraction comes back mirrored (…51.999 -> …51.001)"), m.loc(c))
+
+
 def _fmt_lambda(lam: core.Lambda) -> tuple[str, str] | None:
     """f"{expr:spec}" -> (canonical expr, spec)"""
     b = lam.node.body
@@ -546,6 +592,8 @@ def run(ctx) -> None:
     _named_formats(ctx)
     _from_format(ctx)
     _defaulting(ctx, m)
+    _timestamp_fraction(ctx, m)
+    ctx.expect_min("SCALE.timestamp", 1)
     ctx.expect_min("DEFAULTS.fill", 6)
     ctx.expect_min("TABLES.language", 40)
     ctx.expect_min("TABLES.handler", 40)
